@@ -21,7 +21,7 @@ ID = 'C09'
 
 MANIFEST = dict(
     technique='explicit-state exploration of save/load operation sequences on real PageLayout objects over a finite variant alphabet (all pages up to 3 lines x all target id-subsets x all component removals x legacy formats); reference model = plain dict; end-to-end re-decoding differential',
-    text='Bounded exhaustive: every page of 0-3 lines over a 30-variant line alphabet (1 line: all; 2 lines: all pairs; 3 lines: 6x6x30), saved through the path and bytes variants and loaded into every layout holding a subset of the ids plus an unknown id (pre-filled with other data), with the save-load-save-load chain, every removal of one or two of {logits, charset, window} from each line under both values of missing_line_logits_ok, and legacy files. Restored matrices must be identical in values and sparsity structure, other lines untouched, missing components reported and nothing written; dense reconstruction keeps stored entries, floors pruned ones and normalises rows; a layout rebuilt from PAGE XML + logits must re-decode (greedy and beam) and export ALTO words identically. Added sub-sweeps: float32 matrices with a dominant entry, pruned entries stored as explicit zeros and csr / coo layouts, 12-line pages, a line that decodes to \'\', saved logits loaded into a layout that was already decoded and exported with other logits, and the page-level confidence filter on the rebuilt layout.',
+    text='Bounded exhaustive: every page of 0-3 lines over a 30-variant line alphabet (1 line: all; 2 lines: all pairs; 3 lines: 6x6x30), saved through the path and bytes variants and loaded into every layout holding a subset of the ids plus an unknown id (pre-filled with other data), with the save-load-save-load chain, every removal of one or two of {logits, charset, window} from each line under both values of missing_line_logits_ok, and legacy files. Restored matrices must be identical in values and sparsity structure, other lines untouched, missing components reported and nothing written; dense reconstruction keeps stored entries, floors pruned ones and normalises rows; a layout rebuilt from PAGE XML + logits must re-decode (greedy and beam) and export ALTO words identically. Added sub-sweeps: float32 matrices with a dominant entry, pruned entries stored as explicit zeros and csr / coo layouts, 12-line pages, a line that decodes to \'\', saved logits loaded into a layout that was already decoded and exported with other logits, and the page-level confidence filter on the rebuilt layout. ALTO export under min_line_confidence thresholds placed on the stored (three-decimal) and the full-precision line confidences.',
     note='Matrix shapes up to 5x4; ids from a fixed set; pickle protocol as used by the code.',
     ref='3/C09')
 
